@@ -39,15 +39,13 @@ Section WithSig.
 
   Definition kpos (i : nat) : skey := KPos (Z.of_nat i).
 
-  (* SignatureInfo.get_default(index, NO_VALUE) *)
+  (* SignatureInfo.get_default(index, NO_VALUE): the default of the positional parameter at that
+     index (positional-only or positional-or-keyword), with or without *args *)
   Definition get_default_idx (i : nat) : ref :=
-    match vps sg with
-    | Some s =>
-        if Nat.ltb i s then
-          match nth_error sg i with
-          | Some p => match pdefault p with Some d => d | None => NoValue end
-          | None => NoValue
-          end
+    match nth_error sg i with
+    | Some p =>
+        if is_prefix_kind (pk p)
+        then match pdefault p with Some d => d | None => NoValue end
         else NoValue
     | None => NoValue
     end.
